@@ -219,12 +219,23 @@ def perform(env, spec, f, term, user_symbols):
         return ["constant", str(c.get_type()), str(c.constant_value()), type(c.constant_value()).__name__]
     if k == "closer_logic":
         import pysmt.logics as L
-        sup = [L.get_logic_by_name(n) for n in spec["supported"]]      # a temporary list
         lg = L.get_logic_by_name(spec["logic"])
-        res = L.get_closer_logic(sup, lg)
-        if res not in sup or not (lg <= res):
-            return ("closer-logic-wrong", "get_closer_logic(%s, %s) = %s" % (spec["supported"], spec["logic"], res))
-        return ["closer", str(res)]
+        out = []
+        # two temporary collections of the same size, one after the other (the second one is very
+        # likely to be allocated where the first one was)
+        for names in (spec["supported"], list(reversed(CLOSER_LOGICS))[:len(spec["supported"])]):
+            sup = [L.get_logic_by_name(n) for n in names]
+            try:
+                res = L.get_closer_logic(sup, lg)
+            except L.NoLogicAvailableError:
+                out.append("none")
+                del sup
+                continue
+            if res not in sup or not (lg <= res):
+                return ("closer-logic-wrong", "get_closer_logic(%s, %s) = %s" % (names, spec["logic"], res))
+            out.append(str(res))
+            del sup
+        return ["closer"] + out
     if k == "rewriter_long":
         obj = spec["_rewriter"]
         return obj.normalize(f) if spec["which"] == "prenex" else obj.convert(f)
